@@ -143,6 +143,8 @@ pub enum Op {
     ConfigDir { name: String },
     Copy { s: String, d: String },
     CopyB { s: String, d: String, calls: Vec<CopyCall> },
+    /// builder created, then the cwd changes, then exec(): when does a builder resolve its paths?
+    CopyBDeferred { s: String, d: String, calls: Vec<CopyCall>, cwd: String },
     Cwd,
     Root,
     SetCwd { p: String },
@@ -213,6 +215,7 @@ impl Op {
             Op::ConfigDir { .. } => "config_dir",
             Op::Copy { .. } => "copy",
             Op::CopyB { .. } => "copy_b",
+            Op::CopyBDeferred { .. } => "copy_b_deferred",
             Op::Cwd => "cwd",
             Op::Root => "root",
             Op::SetCwd { .. } => "set_cwd",
@@ -310,6 +313,7 @@ impl Op {
             | Op::OpenAppend { p, .. }
             | Op::Expand { p } => vec![p],
             Op::Copy { s, d } | Op::CopyB { s, d, .. } | Op::MoveP { s, d } => vec![s, d],
+            Op::CopyBDeferred { s, d, cwd, .. } => vec![s, d, cwd],
             Op::Symlink { l, t } => vec![l, t],
             Op::Macro { a, b, .. } => {
                 let mut v = vec![a];
